@@ -1091,6 +1091,21 @@ class RegistryMonitor:
             cand = [t for t in self.open if via == "all" or self.key_of.get(t) == via[4:]]
             if cand:
                 v.append(("C12", "unavailable-although-open", f"`{op}` was refused as unavailable although tunnel(s) {sorted(cand)} are open for it"))
+        if ms and not ms.group(1).isdigit() and ms.group(1) != "unavailable" and name == "r.pick":
+            v.append(("C12", "routed-to-dead-tunnel", f"`{op}` was routed to a tunnel that cannot serve it: {ms.group(1)[:120]}"))
+            v.append(("C14", "registry-entry-left-behind", f"`{op}` was routed to a tunnel that has ended: {ms.group(1)[:120]}"))
+        mk = re.match(r"ready=(\d) waitblocks=(\d) ", line)
+        if mk and name == "r.ready":
+            key = k.get("key")
+            cand = [t for t in self.open if key == "*" or self.key_of.get(t) == key]
+            if (mk.group(1) == "1") != bool(cand):
+                v.append(("C12", "ready-wrong-for-key", f"Ready() for key {key} = {mk.group(1)} but the open tunnels for it are {sorted(cand)}"))
+                if mk.group(1) == "1":
+                    v.append(("C14", "registry-entry-left-behind", f"the registry for key {key} still reports a tunnel although none is open "
+                                                                   f"(open tunnels: {sorted(self.open)})"))
+            if (mk.group(2) == "1") != (not cand):
+                v.append(("C12", "waitforready-wrong-for-key", f"WaitForReady for key {key} {'blocks' if mk.group(2) == '1' else 'passes'} "
+                                                               f"but the open tunnels for it are {sorted(cand)}"))
         if (m.group(2) == "1") != bool(live):
             v.append(("C12", "ready-wrong", f"Ready() = {m.group(2)} with open tunnels {live}"))
         for w in m.group(3).split():
